@@ -259,7 +259,13 @@ def run_scenario(sc):
     SessionSocket.current = s
     s.ev({"k": "cfg", "target": sc["target"], "driver": sc["driver"], "has_project": 1 if sc.get("project") else 0})
     with mock.patch("socket.socket", SessionSocket), mock.patch("socket.gethostbyname", lambda h: h):
-        drv = make_driver(sc)
+        try:
+            drv = make_driver(sc)
+        except Exception as ex:                  # the path string was refused: a result of the scenario, not a harness failure
+            s.ev({"k": "call", "api": "construct", "intent": {}, "faulted": 0})
+            s.ev({"k": "ret", "api": "construct", "outcome": "exc", "cls": type(ex).__name__, "pycomm": 1 if isinstance(ex, PycommError) else 0,
+                  "result": {"single": -1, "value": {"none": 1}, "tags": []}, "connected": 0, "size": -1, "faulted": 0, "peer_gone": 0})
+            return {"id": sc["id"], "events": s.events, "target_log": [], "ledger": [], "mem_after": {}}
         for c in sc["calls"]:
             s.ev({"k": "call", "api": c["api"], "intent": c.get("intent", {}), "faulted": 1 if s.fault_fired else 0})
             rec = {"k": "ret", "api": c["api"]}
